@@ -53,17 +53,32 @@ deriving DecidableEq, Repr
 
 def Pkt.empty : Pkt := ⟨[], PACKET_HEADER, [], [], 0, 0, 0, 0⟩
 
-/-- `SterilePacket.append` over `Packet.append`; `none` = OverflowError -/
+/-- the unconditional part of `SterilePacket.append` over `Packet.append`:
+`data.append(...)`, `size = newsize`, `counters[size - 2] = counter` -/
+def Pkt.push (p : Pkt) (d : Dgram) : Pkt :=
+  let newsize := p.size + d.len + DATAGRAM_HEADER + DATAGRAM_TAIL
+  { p with dgrams := p.dgrams ++ [d], size := newsize,
+           counters := p.counters ++ [(newsize - 2, d.counter)] }
+
+/-- the unconditional part of `SterilePacket.append_writer` -/
+def Pkt.pushWriter (p : Pkt) (d : Dgram) : Pkt :=
+  let q := p.push d
+  { q with onTheFly := q.onTheFly ++ [(p.size, q.size, d.cmd)] }
+
+/-- `SterilePacket.append` over `Packet.append`; `none` = OverflowError.  The code tests
+`len(self.data) > 14` before appending; `MAX_DATAGRAMS` (= 15, probed) is the number of appends
+that succeed, so the test is `len + 1 > MAX_DATAGRAMS`. -/
 def Pkt.append (p : Pkt) (d : Dgram) : Option Pkt :=
   let newsize := p.size + d.len + DATAGRAM_HEADER + DATAGRAM_TAIL
   if newsize > MAXSIZE then none
   else if p.dgrams.length + 1 > MAX_DATAGRAMS then none
-  else some { p with dgrams := p.dgrams ++ [d], size := newsize,
-                     counters := p.counters ++ [(newsize - 2, d.counter)] }
+  else some (p.push d)
 
 /-- `SterilePacket.append_writer` -/
 def Pkt.appendWriter (p : Pkt) (d : Dgram) : Option Pkt :=
-  (p.append d).map fun q => { q with onTheFly := q.onTheFly ++ [(p.size, q.size, d.cmd)] }
+  match p.append d with
+  | none => none
+  | some _ => some (p.pushWriter d)
 
 inductive Base where
   | noFmmu | fmmuIn | fmmuOut
